@@ -4,6 +4,7 @@ from pyvc.native import *      # noqa: F401,F403
 CONTEXT_FILE = 'frappy/modulebase.py'
 SOURCES = ['frappy/modulebase.py', 'frappy/params.py', 'frappy/errors.py']
 GHOSTS = ['driver_calls']
+UFS = {'WROTE': (['val', 'str'], 'bool')}
 ASSUMPTIONS = [
     'A3/A6/A7 as for the other properties',
     'setattr(self, <pname>, value) (the parameter descriptor: validation + update) is abstracted as an attribute store;'
@@ -37,8 +38,8 @@ CONTRACTS = [
          modifies=['self.datatype'], ensures={}, raises='never'),
     dict(key='dyn::Module.write_', file=None, func=None, signature='self, value', serves=[], trusted=True, requires=[],
          ghost_modifies=['driver_calls'],
-         ensures={'logged': 'driver_calls == old(driver_calls) + [(pname, value)]'},
-         raises={'logged': 'driver_calls == old(driver_calls) + [(pname, value)]'}),
+         ensures={'logged': 'driver_calls == old(driver_calls) + [(pname, value)]', 'view': 'WroteView(driver_calls, old(driver_calls), pname)'},
+         raises={'logged': 'driver_calls == old(driver_calls) + [(pname, value)]', 'view': 'WroteView(driver_calls, old(driver_calls), pname)'}),
     dict(key='Module._handle_writes', file='frappy/modulebase.py', func='Module._handle_writes', serves=['C10'],
          self_type='Module', params={'pname': 'str', 'pobj': 'Parameter'},
          requires=['inv(self)', 'inv(pobj)'],
@@ -70,6 +71,20 @@ LOOPS = {
                    'popped': 'PoppedSoFar(self.writeDict, old(self.writeDict), done__)',
                    }),
 }
+
+
+def WroteView(l1, l0, pname):
+    """WROTE(log, n): the write method of parameter n was called in this log (defining equation of the view, per append)"""
+    return forall_str(lambda n: WROTE(l1, n) == (WROTE(l0, n) or n == pname))
+
+
+def WrittenIffConfigured(m, wd0, l0, l1):
+    """a write method is called by this function exactly for the parameters that had a configured value pending"""
+    return forall_str(lambda n: WROTE(l1, n) == (WROTE(l0, n) or (n in wd0 and has_dyn(m, 'write_' + n))))
+
+
+def WrittenSoFar(m, done, l0, l1):
+    return forall_str(lambda n: WROTE(l1, n) == (WROTE(l0, n) or (n in done and has_dyn(m, 'write_' + n))))
 
 
 def PoppedSoFar(wd1, wd0, done):
